@@ -1,6 +1,7 @@
 """Model check -> behaviours -> replay on the implementation -> trace validation (both binding directions)."""
 import concurrent.futures as cf
 import json
+import re
 import os
 import random
 import shutil
@@ -102,6 +103,7 @@ class ReplayStats(object):
         self.rejected = []     # dicts
         self.samples = []
         self.okcount = {}      # action -> [calls that returned OK, calls that failed]
+        self.devlog = []       # deviations used by accepting validations: dict(name, trace, behaviour)
         self.wall = 0.0
 
 
@@ -167,7 +169,7 @@ def replay_validate(ctx, name, driver_mod, driver_args, behaviours, trace_module
 
     def handle_chunk(res):
         k, cw, out, rc, err = res
-        local = dict(executions=0, accepted=0, events=0, rejected=[], samples=[], okcount={})
+        local = dict(executions=0, accepted=0, events=0, rejected=[], samples=[], okcount={}, devlog=[])
         execs, lines = split_executions(out)
         for ln in lines:
             try:
@@ -187,6 +189,12 @@ def replay_validate(ctx, name, driver_mod, driver_args, behaviours, trace_module
             os.makedirs(os.path.join(cw, "v-%d" % rounds), exist_ok=True)
             r = validate(cur, cw, str(rounds))
             if r.accepted:
+                # deviations (known findings) the accepting run of the trace specification may have used (candidates)
+                for b_s, dname in sorted(set(re.findall(r'<<"DEV", (\d+), "(\w+)">>', r.output))):
+                    for (a, b, bi) in execs:
+                        if bi == int(b_s):
+                            local["devlog"].append(dict(name=dname, trace=[x.strip() for x in lines[a:b]],
+                                                        behaviour=chunks[k][bi][1] if 0 <= bi < len(chunks[k]) else None))
                 break
             # locate the failing execution in the current file
             execs_c, lines_c = split_executions(cur)
@@ -224,6 +232,7 @@ def replay_validate(ctx, name, driver_mod, driver_args, behaviours, trace_module
         st.accepted += loc["accepted"]
         st.events += loc["events"]
         st.rejected.extend(loc["rejected"])
+        st.devlog.extend(loc["devlog"])
         st.samples.extend(loc["samples"])
         for k2, v2 in loc["okcount"].items():
             c = st.okcount.setdefault(k2, [0, 0])
@@ -307,7 +316,7 @@ def graphs_replay(ctx, mc_module, trace_module, driver_mod, graphs, invariants, 
     """graphs: [dict(name=, constants=, trace_constants=, driver_args=[lib, ...], variants=[(suffix, extra_args)])].
     Exhaustive TLC + dump, edge-covering walks, replay, trace validation.  Returns summed statistics."""
     out = dict(states=0, transitions=0, edges_total=0, edges_replayed=0, accepted=0, executions=0, events=0,
-               samples=[], okcount={})
+               samples=[], okcount={}, devlog=[])
     for gr in graphs:
         res, g = model_check(ctx, mc_module, gr["name"], gr["constants"], invariants=invariants, properties=properties,
                              dump=True, view=view)
@@ -336,6 +345,7 @@ def graphs_replay(ctx, mc_module, trace_module, driver_mod, graphs, invariants, 
             out["accepted"] += st.accepted
             out["executions"] += st.executions
             out["events"] += st.events
+            out["devlog"].extend(st.devlog)
             for k2, v2 in st.okcount.items():
                 c2 = out["okcount"].setdefault(k2, [0, 0])
                 c2[0] += v2[0]
